@@ -187,7 +187,8 @@ def decide(case, wctx):
             op = case["ops"][problems[0]["step"]]
             e = problems[0]["error"]
             if (op.get("task") in DUP and op.get("rerun") and op.get("propagate") and op.get("worker") == "cf"
-                    and ("Could not find results of" in e or "readonly_caches" in e)):
+                    and ("Could not find results of" in e or "readonly_caches" in e
+                         or "Not able to get any more tasks but" in e)):
                 r["mech"] = "rerun-duplicate-identity-race"
         if all(p.get("shadowed") for p in problems if p["why"].startswith("executed although")) and \
                 all(p["why"].startswith("executed although") for p in problems):
@@ -221,6 +222,9 @@ def run(ctx):
     quick = ctx.tier == "quick"
     rng = ctx.rng("gen")
     cases = [gen_case(rng) for _ in range(90 if quick else 1500)]
+    # directed: repeated propagated reruns of the workflow that holds one identity twice (process pool)
+    rr = {"op": "submit", "task": "W3", "rerun": True, "propagate": True, "readonly": [], "worker": "cf"}
+    cases += [{"prepopulate": {"R1": [], "R2": []}, "ops": [dict(rr) for _ in range(2 + i % 3)]} for i in range(6 if quick else 40)]
     ctx.rule = ("histories of 3-8 operations (submit task/workflow with rerun/propagate flags and a read-only list ⊆ {R1,R2}; plant an "
                 "incomplete job directory) over 3 tasks + 2 workflows sharing a node identity; non-trivial = >=3 submissions; "
                 "distinct = distinct history")
